@@ -37,6 +37,7 @@ import string
 
 from ..absval import Poly, Rat, eval_pred, orderings, ratfun
 from ..normalize import inline_helpers
+from ..lib_C15 import inline_tail_call
 from ..core import (AnalysisError, call_name, const_str, find_calls,
                     is_self_attr, kwarg, last_attr, names_in, short, txt,
                     walk)
@@ -886,7 +887,10 @@ def r152(ctx, repo):
            node=w, label="import chain", nontrivial=False)
 
     # PolygonFilter.filter
-    filt = repo.func(POLY, "PolygonFilter.filter")
+    # (a method that delegates to a helper with a tail call is read
+    # through the helper)
+    filt = inline_tail_call(repo, POLY, repo.func(POLY,
+                                                  "PolygonFilter.filter"))
     fpar = params_of(filt)
     if len(fpar) != 3:
         raise AnalysisError(f"PolygonFilter.filter: parameters {fpar}")
@@ -1463,9 +1467,16 @@ def _digest_coverage(ctx, repo, filt):
                     "hashobj", "md5", "sha256", "hash", "hashfile")
                     for c in walk(f))}
     upd = repo.func(FILT, "Filter.update")
+    def callee_attr(c_):
+        f_ = c_.func
+        if isinstance(f_, ast.Name):
+            vals = single_assign_loose(upd, f_.id)
+            if len(vals) == 1 and isinstance(vals[0], ast.Attribute):
+                return vals[0].attr     # local alias of a bound method
+        return last_attr(c_)
     pfs = {n.targets[0].id for n in walk(upd) if isinstance(n, ast.Assign)
            and isinstance(n.targets[0], ast.Name) and isinstance(
-               n.value, ast.Call) and last_attr(n.value) in (
+               n.value, ast.Call) and callee_attr(n.value) in (
                "get_instance_from_id",)}
     if len(pfs) != 1:
         raise AnalysisError("Filter.update: polygon filter instance "
@@ -1816,16 +1827,15 @@ def r153(ctx, repo):
     disp = None
     VAR = VAL = unpack = None
     for lp in walk(load):
-        if not (isinstance(lp, ast.For) and lp.body and isinstance(
-                lp.body[-1], ast.If)):
+        if not isinstance(lp, ast.For):
             continue
-        pre = lp.body[:-1]
-        if not all(isinstance(x, ast.Assign) and len(x.targets) == 1
-                   for x in pre):
+        shape = _loop_dispatch(lp)
+        if shape is None:
             continue
+        pre = shape[0]
         if isinstance(lp.target, ast.Tuple) and len(lp.target.elts) == 2 \
                 and all(isinstance(x.targets[0], ast.Name) for x in pre):
-            disp = lp
+            disp, disp_shape = lp, shape
             VAR, VAL = [txt(x) for x in lp.target.elts]
             unpack = None
         elif isinstance(lp.target, ast.Name):
@@ -1835,13 +1845,13 @@ def r153(ctx, repo):
                   and lp.target.id in names_in(x.value)]
             if len(un) == 1 and all(isinstance(x.targets[0], ast.Name)
                                     for x in pre if x is not un[0]):
-                disp = lp
+                disp, disp_shape = lp, shape
                 VAR, VAL = [txt(x) for x in un[0].targets[0].elts]
                 unpack = un[0]
     if disp is None:
         raise AnalysisError("PolygonFilter._load: key dispatch loop lost")
     # local aliases computed before the dispatch (key = var.lower())
-    prefix = [x for x in disp.body[:-1] if x is not unpack]
+    prefix = [x for x in disp_shape[0] if x is not unpack]
     if any(x.targets[0].id in (VAR, VAL) for x in prefix):
         raise AnalysisError("PolygonFilter._load: key/value re-bound before "
                             "the dispatch")
@@ -1862,15 +1872,7 @@ def r153(ctx, repo):
     if len(heads) != 1:
         raise AnalysisError("PolygonFilter._load: section head test lost")
     head_ch = const_str(heads[0].args[0])
-    branches = []       # (test, body)
-    node = disp.body[-1]
-    while True:
-        branches.append((node.test, node.body))
-        if len(node.orelse) == 1 and isinstance(node.orelse[0], ast.If):
-            node = node.orelse[0]
-            continue
-        else_body = node.orelse
-        break
+    branches, else_body = disp_shape[1], disp_shape[2]   # (test, body)
     else_raises = any(isinstance(s, ast.Raise) for s in else_body)
 
     header = None
@@ -2286,6 +2288,48 @@ def _unique_id_rule(ctx, repo):
            "to _set_unique_id" if ok else "_load no longer registers the "
            "identifier parsed from the header", node=load,
            label="loaded id registered", nontrivial=False)
+
+
+def _loop_dispatch(lp):
+    """(prefix assignments, [(test, body)], else body) of a loop body that
+    dispatches on a key – written as one if/elif/else chain or as guard
+    clauses (`if test: ...; continue`, finally `if not test: raise` followed
+    by the handler of the last key)"""
+    body = lp.body
+    i = 0
+    while i < len(body) and isinstance(body[i], ast.Assign) and len(
+            body[i].targets) == 1:
+        i += 1
+    pre, rest = body[:i], body[i:]
+    if not rest:
+        return None
+    if len(rest) == 1 and isinstance(rest[0], ast.If) and rest[0].orelse:
+        branches = []
+        node = rest[0]
+        while True:
+            branches.append((node.test, node.body))
+            if len(node.orelse) == 1 and isinstance(node.orelse[0], ast.If):
+                node = node.orelse[0]
+                continue
+            return pre, branches, node.orelse
+    branches, else_body = [], []
+    for j, st in enumerate(rest):
+        if not (isinstance(st, ast.If) and not st.orelse and st.body):
+            return None
+        if isinstance(st.body[-1], ast.Continue):
+            branches.append((st.test, st.body[:-1] or [ast.Pass()]))
+            continue
+        if all(isinstance(x, ast.Raise) for x in st.body) and rest[j + 1:]:
+            t = st.test
+            pos = t.operand if isinstance(t, ast.UnaryOp) and isinstance(
+                t.op, ast.Not) else ast.UnaryOp(op=ast.Not(), operand=t)
+            branches.append((pos, rest[j + 1:]))
+            else_body = st.body
+            break
+        return None
+    if len(branches) < 2:
+        return None
+    return pre, branches, else_body
 
 
 def _anc_calls(node):
@@ -2822,4 +2866,107 @@ TWINS = [
        '        f = points_in_poly(points, self.points)\n'),
       ('        f = points_in_poly(points=points, verts=np.array(poly))\n',
        '        f = points_in_poly(points, np.array(poly))\n')]),
+    ('refactoring 5: key dispatch written as guard clauses', POLY,
+     [('        if len(int_head) > self.fileid+1:\n'
+       '            end = int_head[self.fileid+1]\n'
+       '        else:\n'
+       '            end = len(data)\n',
+       '        end = len(data)\n'
+       '        if len(int_head) > self.fileid+1:\n'
+       '            end = int_head[self.fileid+1]\n'),
+      ('            if var.lower() == "x axis":\n'
+       '                xaxis = val.lower()\n'
+       '            elif var.lower() == "y axis":\n'
+       '                yaxis = val.lower()\n'
+       '            elif var.lower() == "name":\n'
+       '                self.name = val\n'
+       '            elif var.lower() == "inverted":\n'
+       '                if val == "True":\n'
+       '                    self.inverted = True\n'
+       '            elif var.lower().startswith("point"):\n'
+       '                val = np.array(val.strip("[]").split(), '
+       'dtype=np.float64)\n'
+       '                points.append([int(var[5:]), val])\n'
+       '            else:\n'
+       '                raise KeyError("Unknown variable: {} = {}".\n'
+       '                               format(var, val))\n',
+       '            # each recognized key is handled by one guard clause\n'
+       '            if var.lower() == "x axis":\n'
+       '                xaxis = val.lower()\n'
+       '                continue\n'
+       '            if var.lower() == "y axis":\n'
+       '                yaxis = val.lower()\n'
+       '                continue\n'
+       '            if var.lower() == "name":\n'
+       '                self.name = val\n'
+       '                continue\n'
+       '            if var.lower() == "inverted":\n'
+       '                if val == "True":\n'
+       '                    self.inverted = True\n'
+       '                continue\n'
+       '            if not var.lower().startswith("point"):\n'
+       '                raise KeyError("Unknown variable: {} = {}".\n'
+       '                               format(var, val))\n'
+       '            val = np.array(val.strip("[]").split(), '
+       'dtype=np.float64)\n'
+       '            points.append([int(var[5:]), val])\n')]),
+    ('refactoring 5: filter delegates to a module-level helper', POLY,
+     [('class PolygonFilter(object):\n',
+       'def _filter_events(polygon_filter, datax, datay):\n'
+       '    """Classify the events (datax, datay) with a '
+       ':class:`PolygonFilter`"""\n'
+       '    points = np.zeros((datax.shape[0], 2), dtype=np.float64)\n'
+       '    points[:, 0] = datax\n'
+       '    points[:, 1] = datay\n'
+       '    f = points_in_poly(points=points, verts=polygon_filter.points)\n'
+       '\n'
+       '    if polygon_filter.inverted:\n'
+       '        np.invert(f, f)\n'
+       '\n'
+       '    return f\n'
+       '\n'
+       '\n'
+       'class PolygonFilter(object):\n'),
+      ('        points = np.zeros((datax.shape[0], 2), dtype=np.float64)\n'
+       '        points[:, 0] = datax\n'
+       '        points[:, 1] = datay\n'
+       '        f = points_in_poly(points=points, verts=self.points)\n'
+       '\n'
+       '        if self.inverted:\n'
+       '            np.invert(f, f)\n'
+       '\n'
+       '        return f\n',
+       '        return _filter_events(self, datax, datay)\n')]),
+    ('refactoring 5: local aliases for the registry lookup and the cache', FILT,
+     [('import warnings\n', 'import operator\nimport warnings\n'),
+      ('        for pf_id in cfg_cur["polygon filters"]:\n'
+       '            pf = PolygonFilter.get_instance_from_id(pf_id)\n'
+       '            if (pf_id not in self._poly_filters\n'
+       '                    or pf.hash != self._poly_filters[pf_id][0]):\n'
+       '                datax = rtdc_ds[pf.axes[0]]\n'
+       '                datay = rtdc_ds[pf.axes[1]]\n'
+       '                self._poly_filters[pf_id] = (pf.hash, '
+       'pf.filter(datax, datay))\n'
+       '        # store polygon filters\n'
+       '        arr_polygon = self._get_rw_array("polygon")\n'
+       '        arr_polygon[:] = True\n'
+       '        for pf_id in self._poly_filters:\n'
+       '            arr_polygon &= self._poly_filters[pf_id][1]\n',
+       '        # cached results: {unique id: (hash, boolean array)}\n'
+       '        poly_filters = self._poly_filters\n'
+       '        get_polygon_filter = PolygonFilter.get_instance_from_id\n'
+       '        for pf_id in cfg_cur["polygon filters"]:\n'
+       '            pf = get_polygon_filter(pf_id)\n'
+       '            if (pf_id not in poly_filters\n'
+       '                    or pf.hash != poly_filters[pf_id][0]):\n'
+       '                datax = rtdc_ds[pf.axes[0]]\n'
+       '                datay = rtdc_ds[pf.axes[1]]\n'
+       '                poly_filters[pf_id] = (pf.hash, pf.filter(datax, '
+       'datay))\n'
+       '        # store polygon filters\n'
+       '        arr_polygon = self._get_rw_array("polygon")\n'
+       '        arr_polygon[:] = True\n'
+       '        for pf_mask in map(operator.itemgetter(1), '
+       'poly_filters.values()):\n'
+       '            arr_polygon &= pf_mask\n')]),
 ]
